@@ -40,20 +40,20 @@ THEOREMS = [T + n for n in [
     "plugin_mark_stage_failures_defined",
     # plugin provider, synchronisation skeleton
     "provide_never_blocks", "provide_cancelled_never_blocks_partial", "provide_cancelled_may_block_counterexample",
-    "provide_cancelled_never_panics_partial", "provide_cancelled_without_handler_panics_counterexample",
+    "provide_cancelled_never_panics", "provide_cancelled_without_handler_cancels_context",
     "second_input_refused", "close_idempotent", "close_always_possible", "no_notification_after_close_returns",
     "wait_group_counts_goroutines", "close_returns", "close_cancels_context",
     # foreach provider
-    "foreach_traces_legal_partial", "foreach_no_completion_counterexample", "foreach_provide_never_blocks",
-    "foreach_send_on_closed_channel_counterexample", "foreach_close_may_return_before_run_counterexample",
-    "foreach_no_notification_after_close_returns_partial", "foreach_at_most_one_completion",
-    "foreach_run_may_end_without_completion_counterexample", "foreach_close_idempotent",
+    "foreach_traces_legal_partial", "foreach_traces_legal_counterexample", "foreach_only_undeclared_transition",
+    "foreach_exactly_one_completion", "foreach_run_ends_with_one_completion", "foreach_provide_never_blocks",
+    "foreach_close_waits_for_pending_provider", "foreach_no_notification_after_close_returns",
+    "foreach_close_right_after_start_waits", "foreach_close_idempotent",
     "foreach_second_input_refused_partial", "foreach_input_after_close_ignored_counterexample",
 ]]
 
 # driver violation -> (fingerprint suffix, description).  Keys are matched by prefix, longest first.
 PLUGIN_KINDS = {
-    "illegal-trace:undeclared-transition":
+    "illegal-trace:undeclared-transition:deploy->enabling":
         ("illegal-trace:undeclared-transition:deploy->enabling",
          "the plugin provider announces the stage transition deploy -> enabling (enableStage), which the lifecycle does not "
          "declare: deployingLifecycleStage.NextStages = {starting, deploy_failed, closed}"),
@@ -68,7 +68,7 @@ PLUGIN_KINDS = {
     "close-did-not-return": ("close-did-not-return", "Close/ForceClose of a plugin step did not return"),
     "panic:provide:cancelled":
         ("panic:cancel-without-handler",
-         "ProvideStageInput(\"cancelled\", stop_if=true) while a step WITHOUT cancel signal handler is in stage running: cancelStep "
+         "(regression of 691f1ef) ProvideStageInput(\"cancelled\", stop_if=true) while a step WITHOUT cancel signal handler is in stage running: cancelStep "
          "logs 'could not cancel step' and then dereferences the nil handler (cancelSignal.DataSchema()) -> nil pointer panic"),
     "panic:": ("panic", "a call into the plugin provider panicked"),
     "state-not-finished": ("state-not-finished", "the plugin step does not show as finished after its completion"),
@@ -76,19 +76,23 @@ PLUGIN_KINDS = {
     "goroutine-leak": ("goroutine-leak", "goroutines of the plugin step are left after ForceClose returned"),
 }
 FOREACH_KINDS = {
+    "illegal-trace:undeclared-transition:execute->closed":
+        ("illegal-trace:undeclared-transition:execute->closed",
+         "a foreach step closed while waiting for its items goes execute -> closed (runOnInput -> closedEarly), but the lifecycle "
+         "declares closed as a next stage of enabling only"),
     "illegal-trace:no-completion":
         ("foreach-no-completion",
-         "foreach step closed while waiting for its execute input: runOnInput returns on ctx.Done()/closed channel without "
+         "(regression of 2e2fefe) foreach step closed while waiting for its execute input: runOnInput returns on ctx.Done()/closed channel without "
          "OnStepComplete; State() stays running/waiting_for_input"),
     "state-not-finished": ("foreach-no-completion", "foreach step never shows as finished (same defect as foreach-no-completion)"),
     "illegal-trace:": ("foreach-illegal-trace", "the notifications of a foreach step are not a legal path through its lifecycle"),
     "notification-after-close":
         ("foreach-close-returns-before-run",
-         "foreach run() executes r.wg.Add(1) inside the goroutine: a Close that wins the race against the goroutine start finds "
+         "(regression of c9cdc4d) foreach run() executes r.wg.Add(1) inside the goroutine: a Close that wins the race against the goroutine start finds "
          "the counter at zero and returns; run() starts afterwards and delivers all its notifications after Close returned"),
     "panic:provide:execute":
         ("foreach-send-on-closed-channel",
-         "foreach ProvideStageInput(\"execute\") panics with 'send on closed channel': Close closes r.executeInput between the "
+         "(regression of c9cdc4d) foreach ProvideStageInput(\"execute\") panics with 'send on closed channel': Close closes r.executeInput between the "
          "r.closed check and the send (the window is the item validation loop)"),
     "panic:": ("foreach-panic", "a call into the foreach provider panicked"),
     "second-input-accepted": ("foreach-input-accepted-after-close",
@@ -102,6 +106,9 @@ FOREACH_KINDS = {
 
 def classify(provider, violation):
     kinds = FOREACH_KINDS if provider == "foreach" else PLUGIN_KINDS
+    if violation.startswith("illegal-trace:undeclared-transition:") and violation not in kinds:
+        return "C12:" + violation, "the %s provider makes a stage transition its lifecycle does not declare: %s" % (
+            provider, violation.rsplit(":", 1)[1])
     for key in sorted(kinds, key=len, reverse=True):
         if violation.startswith(key):
             fp, what = kinds[key]
@@ -121,7 +128,11 @@ def mon_c12_provider(case, verdict, chk):
     if not verdict:
         return
     provider = case.get("provider", "plugin")
-    for v in verdict.get("violations") or []:
+    viols = verdict.get("violations") or []
+    if any(v.startswith("provide-blocked:cancelled") for v in viols):
+        # the blocked stop request holds r.lock: that Close/ForceClose cannot return is the same finding
+        viols = [v for v in viols if v != "close-did-not-return"]
+    for v in viols:
         fp, what = classify(provider, v)
         script = (case.get("case") or {})
         chk.violation(fp, what, {"kind": "impl-counterexample", "violation": v, "script": script,
